@@ -155,6 +155,8 @@ pub fn profile(prop: &str, tier: &str) -> Profile {
                 (K::RecvTimeout, 3),
                 (K::SendTimeout, 2),
                 (K::SendOptTimeout, 1),
+                (K::Drain, 1),
+                (K::TrySendRt, 1),
             ]),
             pays: vec![Pay::P4, Pay::P16, Pay::P8, Pay::Z0],
             max_sched: 128,
